@@ -548,7 +548,7 @@ class RoundTrip(Family):
             for dv in self.dvs:
                 for cv in self.cvs:
                     yield [dv, cv, r]
-        n = 300 if tier == "quick" else 6000
+        n = 300 if tier == "quick" else 4000
         for t in range(n):
             r = gen_recipe(rng, small=(t % 3 == 0))
             if tier == "quick" and t % 5 != 0:
